@@ -27,7 +27,7 @@
 #include "libzvbi.h"
 
 #define MAXLP 16
-#define MAXW 512
+#define MAXW 4096
 #define MAXDEL 200
 
 struct conf {
@@ -45,12 +45,13 @@ struct lpk {                    /* logical packet of the selected service */
 	int ambig;              /* readings of the dummy rule differ for this packet */
 };
 
-enum { F_OK = 0, F_BENIGN, F_CRC, F_HAMM };
+enum { F_OK = 0, F_BENIGN, F_CRC, F_HAMM, F_DROP /* long mode: this copy is not fed */ };
 
 struct wire {
 	uint8_t b[42];
 	int lp;                 /* logical packet or -1 (foreign) */
 	int rep, fate;
+	int svc;                /* long mode: service 0 / 1, -1 foreign */
 };
 
 struct deliv { int w; unsigned n, flags; uint8_t d[64]; int toolong; };
@@ -245,8 +246,8 @@ static int next_user(struct vf_rng *r, struct ugen *g)
 static int is_run_byte(int t) { return t == 0 || t == 0xFF; }
 
 /* Fill the user data area of one packet.  Returns number of wire bytes. */
-static int gen_payload(struct vf_rng *r, const struct conf *c, struct lpk *l, struct ugen *g,
-		       uint8_t *wire, int want_ambig)
+static int gen_payload_pre(struct vf_rng *r, const struct conf *c, struct lpk *l, struct ugen *g,
+			   uint8_t *wire, int want_ambig, const uint8_t *pre, int npre)
 {
 	int cap = capacity(c), nwire, w = 0, hist = -1, cnt = 0, first = 1;
 	int ci_adjacent = c->have_ci && !c->have_dl;
@@ -259,13 +260,14 @@ static int gen_payload(struct vf_rng *r, const struct conf *c, struct lpk *l, st
 		}
 	} else
 		nwire = cap;
+	if (npre && nwire < npre + 1) nwire = npre + 1;
 	if (ci_adjacent) { hist = l->ci; cnt = ci_run ? 1 : 0; }
 	l->nuser = l->ndummy = 0; l->ambig = 0;
 	if (want_ambig && ci_run && !ci_adjacent) {   /* 7 or 8 bytes equal to the (not adjacent) CI value first */
 		g->mode = 1; g->val = l->ci; g->left = vf_range(r, 7, 9);
 	}
 	while (w < nwire) {
-		int u = next_user(r, g);
+		int u = (l->nuser < npre) ? pre[l->nuser] : next_user(r, g);
 		if (first && ci_run && !ci_adjacent && u == l->ci && !want_ambig) {
 			/* keep out of the class where readings of 6.5.7.1 differ */
 			u ^= 0x5A; g->left = 0;
@@ -292,6 +294,12 @@ static int gen_payload(struct vf_rng *r, const struct conf *c, struct lpk *l, st
 	return nwire;
 }
 
+static int gen_payload(struct vf_rng *r, const struct conf *c, struct lpk *l, struct ugen *g,
+		       uint8_t *wire, int want_ambig)
+{
+	return gen_payload_pre(r, c, l, g, wire, want_ambig, NULL, 0);
+}
+
 static void gen_conf(struct vf_rng *r, struct conf *c)
 {
 	int opts = (int)vf_below(r, 8);
@@ -307,7 +315,7 @@ static void push_wire(const uint8_t b[42], int lpi, int rep)
 {
 	if (n_w >= MAXW) return;
 	memcpy(wv[n_w].b, b, 42);
-	wv[n_w].lp = lpi; wv[n_w].rep = rep; wv[n_w].fate = F_OK;
+	wv[n_w].lp = lpi; wv[n_w].rep = rep; wv[n_w].fate = F_OK; wv[n_w].svc = lpi >= 0 ? 0 : -1;
 	n_w++;
 }
 
@@ -650,6 +658,502 @@ int c15_idl_case(struct vf_rng *r, long idx)
 	vf_sig("idl ft=%d alen=%s endrun=%s rep=%d faults=0x%x ambig=%d", c.have_ri | c.have_ci << 1 | c.have_dl << 2,
 	       c.alen == 0 ? "0" : c.alen == 6 ? "6" : "1-5",
 	       maxend == 8 ? "8" : maxend == 7 ? "7" : maxend ? "1-6" : "0", anyrep, kinds, any_ambig);
+	return 1;
+}
+
+/* =====================================================================
+ * Long streams (--mode idl-long): 40-300 logical packets per service so that
+ * the continuity index wraps, gaps of chosen lengths (1, 2, 15-17, 255-257,
+ * 512 ...), several wire faults, vbi_idl_demux_reset() between packets,
+ * callbacks returning FALSE, frames with several packets of the service, and
+ * two demultiplexer contexts (two services) fed from the same multiplex.
+ *
+ * What the continuity index can show: CI is one byte (explicit, or implied by
+ * the CRC), so a receiver sees the number of missing packets modulo 256 only.
+ * A loss of 256*k packets is not observable: DATA_LOST is neither demanded nor
+ * forbidden there.  Every other loss must be flagged on the next delivery.
+ *
+ * The first two user bytes of every logical packet name the service and the
+ * packet, so that a callback inside a frame of several packets can be
+ * attributed to its line.  (Payloads without such a tag, including empty ones,
+ * are the business of --mode idl.)
+ * ===================================================================== */
+
+#define LMAXLP 320
+#define LMAXDEL 800
+
+struct lsvc {
+	struct conf c;
+	int id, n_lp;
+	struct lpk lp[LMAXLP];
+	long seq[LMAXLP];               /* position in the sender's sequence: CI = ci0 + seq */
+	uint8_t cbf[LMAXLP];            /* the callback returns FALSE for this logical packet */
+	int n_reset, reset_at[4];       /* vbi_idl_demux_reset() right before wire packet reset_at[] is fed */
+	vbi_idl_demux *dx;
+	struct deliv dv[LMAXDEL];
+	uint8_t dv_false[LMAXDEL];
+	int n_dv;
+	int fr_first, fr_last, fr_cur;  /* frame mode: lines of the current call; fr_first < 0 in packet mode */
+	int cbfalse_w;                  /* wire packet during which the callback returned FALSE in the current call */
+};
+
+static struct lsvc *ls[2];
+static struct wire *lsw[2];
+static int n_lsw[2];
+
+static void tag_encode(uint8_t t[2], int svc, int k)
+{
+	t[0] = (uint8_t)(0x41 + (k >> 7) + 8 * svc);
+	t[1] = (uint8_t)(0x80 | (k & 0x7F));
+}
+
+static int tag_decode(const uint8_t *t, int *svc)
+{
+	int v = t[0] - 0x41;
+	if (v < 0 || v > 15 || (v & 7) > 2 || !(t[1] & 0x80)) return -1;
+	*svc = v >> 3;
+	return (v & 7) << 7 | (t[1] & 0x7F);
+}
+
+static vbi_bool idl_long_cb(vbi_idl_demux *dx, const uint8_t *buffer, unsigned int n_bytes, unsigned int flags, void *ud)
+{
+	struct lsvc *s = ud;
+	int w = cur_w, ret = 1;
+	(void)dx;
+	if (s->fr_first >= 0) {         /* which line of the frame is this? */
+		int tsvc = -1, k = (n_bytes >= 2) ? tag_decode(buffer, &tsvc) : -1, i, any = -1;
+		w = -1;
+		if (k >= 0)
+			for (i = s->fr_cur; i <= s->fr_last; i++)
+				if (wv[i].svc == tsvc && wv[i].lp == k && wv[i].fate != F_DROP) {
+					if (any < 0) any = i;
+					if (wv[i].fate == F_OK || wv[i].fate == F_BENIGN) { w = i; break; }
+				}
+		if (w < 0) w = any;
+		if (w >= 0) s->fr_cur = w + 1;
+	}
+	vf_log("service %d callback during wire %d: %u bytes flags 0x%x\n", s->id, w, n_bytes, flags);
+	if (w >= 0 && wv[w].svc == s->id && s->cbf[wv[w].lp]) { ret = 0; s->cbfalse_w = w; }
+	if (s->n_dv < LMAXDEL) {
+		struct deliv *d = &s->dv[s->n_dv];
+		s->dv_false[s->n_dv++] = (uint8_t)!ret;
+		d->w = w; d->n = n_bytes; d->flags = flags;
+		d->toolong = n_bytes > 36;
+		memcpy(d->d, buffer, n_bytes > 40 ? 40 : n_bytes);
+	}
+	return ret;
+}
+
+static int reset_between(const struct lsvc *s, int after_w, int upto_w)
+{
+	int i;
+	for (i = 0; i < s->n_reset; i++)
+		if (s->reset_at[i] > after_w && s->reset_at[i] <= upto_w) return 1;
+	return 0;
+}
+
+struct lstat { long first_after_reset, gap_invisible, gap_flagged, lost_flagged, deliveries; };
+
+static int evaluate_long(const char *iface, struct lsvc *s, struct lstat *st)
+{
+	const struct conf *c = &s->c;
+	int i, prev_lp = -1, prev_w = -1, k, j;
+	for (k = 0; k < s->n_lp; k++) s->lp[k].ndeliv = 0;
+	for (i = 0; i < s->n_dv; i++) {
+		struct deliv *d = &s->dv[i];
+		struct wire *w;
+		struct lpk *l;
+		long lost;
+		int trouble = 0, after_reset;
+		if (d->w < 0) {
+			vf_fail("model:C15:idl:frame-delivery-unattributable", "%s: service %d (channel %d address 0x%x) delivery %d (%u bytes %s) is the data of no packet in the lines of the frame that were not yet passed",
+				iface, s->id, c->channel, c->addr, i, d->n, vf_hex(d->d, d->n > 40 ? 40 : d->n));
+			return 0;
+		}
+		w = &wv[d->w];
+		if (w->svc != s->id) {
+			vf_fail("model:C15:idl:foreign-delivery", "%s: context for channel %d address 0x%x: callback for packet %d which belongs to %s: %s -> %u bytes %s",
+				iface, c->channel, c->addr, d->w, w->svc < 0 ? "no service fed here" : "the other context's service", vf_hex(w->b, 42), d->n, vf_hex(d->d, d->n > 40 ? 40 : d->n));
+			return 0;
+		}
+		if (w->fate == F_CRC || w->fate == F_HAMM) {
+			vf_fail("model:C15:idl:corrupt-packet-delivered", "%s: long stream: packet %d (%s error) delivered: %s",
+				iface, d->w, w->fate == F_CRC ? "CRC" : "Hamming", vf_hex(w->b, 42));
+			return 0;
+		}
+		l = &s->lp[w->lp];
+		if (d->toolong || (int)d->n != l->nuser || memcmp(d->d, l->user, (size_t)l->nuser)) {
+			vf_fail("model:C15:idl:content-mismatch", "%s: long stream: packet %d %s: sent %d bytes %s, delivered %u bytes %s (dummies=%d)",
+				iface, d->w, vf_hex(w->b, 42), l->nuser, vf_hex(l->user, (size_t)l->nuser), d->n, vf_hex(d->d, d->n > 40 ? 40 : d->n), l->ndummy);
+			return 0;
+		}
+		if (l->ndeliv++) {
+			vf_fail("model:C15:idl:duplicate-delivery", "%s: long stream: logical packet %d (CI 0x%02x) delivered again by its repeat %d (wire %d)",
+				iface, w->lp, l->ci, w->rep, d->w);
+			return 0;
+		}
+		if (w->lp <= prev_lp) {
+			vf_fail("model:C15:idl:duplicate-delivery", "%s: long stream: logical packet %d delivered after logical packet %d", iface, w->lp, prev_lp);
+			return 0;
+		}
+		lost = prev_lp < 0 ? s->seq[w->lp] : s->seq[w->lp] - s->seq[prev_lp] - 1;
+		for (j = prev_w + 1; j < d->w; j++)
+			if (wv[j].svc == s->id && wv[j].fate == F_CRC) trouble = 1;
+		after_reset = reset_between(s, prev_w, d->w);
+		if (d->flags & ~(unsigned)(VBI_IDL_DATA_LOST | VBI_IDL_DEPENDENT)) {
+			vf_fail("model:C15:idl:flags-undefined-bits", "%s: long stream: delivery %d flags=0x%x contains bits other than DATA_LOST|DEPENDENT", iface, i, d->flags);
+			return 0;
+		}
+		if (!!(d->flags & VBI_IDL_DEPENDENT) != c->dependent) {
+			vf_fail("model:C15:idl:dependent-flag", "%s: long stream: delivery %d flags=0x%x but IAL bit 3 sent as %d", iface, i, d->flags, c->dependent);
+			return 0;
+		}
+		if (after_reset) {
+			/* the documentation of vbi_idl_demux_reset() does not say whether the first delivery
+			   afterwards carries DATA_LOST: both accepted */
+			st->first_after_reset++;
+		} else if (prev_lp >= 0 && lost > 0 && lost % 256 == 0) {
+			st->gap_invisible++;             /* the 8 bit continuity index cannot show it */
+		} else {
+			if (lost > 0 && prev_lp >= 0 && !(d->flags & VBI_IDL_DATA_LOST)) {
+				vf_fail("model:C15:idl:data-lost-not-flagged", "%s: long stream: delivery %d is logical packet %d (CI 0x%02x), previous delivery was packet %d (CI 0x%02x): %ld packet(s) of the sequence missing but flags=0x%x",
+					iface, i, w->lp, l->ci, prev_lp, s->lp[prev_lp].ci, lost, d->flags);
+				return 0;
+			}
+			if (lost == 0 && !trouble && (d->flags & VBI_IDL_DATA_LOST)) {
+				vf_fail("model:C15:idl:spurious-data-lost", "%s: long stream: delivery %d is logical packet %d (CI 0x%02x) right after packet %d, nothing lost or corrupted in between, no reset, flags=0x%x",
+					iface, i, w->lp, l->ci, prev_lp, d->flags);
+				return 0;
+			}
+			if (lost > 0 && prev_lp >= 0) st->gap_flagged++;
+		}
+		if (d->flags & VBI_IDL_DATA_LOST) st->lost_flagged++;
+		st->deliveries++;
+		prev_lp = w->lp; prev_w = d->w;
+	}
+	for (k = 0; k < s->n_lp; k++)
+		if (s->lp[k].orig_ok && !s->lp[k].ndeliv) {
+			vf_fail("model:C15:idl:not-delivered", "%s: long stream: logical packet %d of %d (CI 0x%02x, %d bytes %s) of service %d was fed intact but not delivered (%d resets, %d deliveries)",
+				iface, k, s->n_lp, s->lp[k].ci, s->lp[k].nuser, vf_hex(s->lp[k].user, (size_t)s->lp[k].nuser), s->id, s->n_reset, s->n_dv);
+			return 0;
+		}
+	return 1;
+}
+
+/* what feed() must return for this packet, seen from context s: 1 TRUE, 0 FALSE, -1 not specified */
+static int expect_ret_long(const struct lsvc *s, const struct wire *w)
+{
+	if (w->fate == F_OK || w->fate == F_BENIGN) return 1;
+	return w->svc == s->id ? 0 : -1;
+}
+
+static int is_service_packet(const uint8_t b[42], const struct conf *c)
+{
+	struct parsed q;
+	ref_parse(b, &q, 0);
+	return !q.hamm_err && q.desig == 15 && !(q.ft & 1) && q.alen != 7 && q.channel == c->channel && q.addr == c->addr;
+}
+
+static void poison_heap_long(void)
+{
+	void *p[4]; int i;
+	for (i = 0; i < 4; i++) { p[i] = malloc(40 + 8 * (size_t)i); if (p[i]) memset(p[i], 0x5A, 40 + 8 * (size_t)i); }
+	for (i = 0; i < 4; i++) free(p[i]);
+}
+
+static void do_resets(struct lsvc *s, int i)
+{
+	int k;
+	for (k = 0; k < s->n_reset; k++)
+		if (s->reset_at[k] == i) { vf_log("service %d: reset before wire %d\n", s->id, i); vbi_idl_demux_reset(s->dx); }
+}
+
+/* one vbi_idl_demux_feed_frame() call and, when the callback stopped it, further calls for the remaining lines */
+static void feed_frame_long(struct lsvc *s, const vbi_sliced *sl, const int *map, int n)
+{
+	while (n > 0) {
+		int j, first = -1, last = -1, e = 1;
+		vbi_bool ok;
+		for (j = 0; j < n; j++) if (map[j] >= 0) { if (first < 0) first = map[j]; last = map[j]; }
+		s->fr_first = first < 0 ? 0 : first; s->fr_last = last; s->fr_cur = s->fr_first;
+		s->cbfalse_w = -1;
+		cur_w = -1;
+		ok = vbi_idl_demux_feed_frame(s->dx, sl, (unsigned)n);
+		if (s->cbfalse_w >= 0) {
+			if (ok) {
+				vf_fail("model:C15:idl:cb-false-not-propagated", "feed_frame returned TRUE although the callback returned FALSE for packet %d", s->cbfalse_w);
+				break;
+			}
+			for (j = 0; j < n && map[j] != s->cbfalse_w; j++) ;
+			j++;
+			sl += j; map += j; n -= j;       /* the library stops at that line: feed the rest */
+			continue;
+		}
+		if (last >= 0) e = expect_ret_long(s, &wv[last]);
+		if (e == 1 && !ok)
+			vf_fail("model:C15:idl:feed-false-on-good-packet", "long stream: feed_frame returned FALSE for a frame of intact packets %d..%d", first, last);
+		else if (e == 0 && ok)
+			vf_fail("model:C15:idl:feed-true-on-bad-packet", "long stream: feed_frame returned TRUE although packet %d of the service is damaged", last);
+		break;
+	}
+}
+
+int c15_idl_long_case(struct vf_rng *r, long idx)
+{
+	static const int gaps[] = { 1, 1, 2, 2, 3, 15, 16, 16, 17, 255, 256, 256, 257, 512 };
+	int nsvc, si, i, k, nf, kinds = 0, nforeign = 0, wraps = 0, gapmask = 0, tot_reset = 0, tot_cbf = 0, multi = 0;
+	long n_gap = 0, n_gap16 = 0, n_gap256 = 0, n_adj = 0;
+	struct lstat st;
+	uint8_t *pk;
+	(void)idx;
+	memset(&st, 0, sizeof st);
+	for (si = 0; si < 2; si++) {
+		if (!ls[si]) ls[si] = malloc(sizeof *ls[si]);
+		if (!lsw[si]) lsw[si] = malloc(sizeof *lsw[si] * LMAXLP * 4);
+		if (!ls[si] || !lsw[si]) { vf_fail("harness:alloc", "malloc"); return 0; }
+	}
+	nsvc = vf_chance(r, 1, 2) ? 2 : 1;
+
+	/* services */
+	gen_conf(r, &ls[0]->c);
+	if (nsvc == 2) {
+		struct conf *a = &ls[0]->c, *b = &ls[1]->c;
+		int tries = 0;
+		do {
+			gen_conf(r, b);
+			switch (vf_below(r, 5)) {
+			case 0: b->channel = a->channel; break;                                 /* same channel, other address */
+			case 1: b->channel = a->channel;                                        /* ... differing in one bit */
+				if (a->alen) { b->alen = a->alen; b->addr = a->addr ^ (1u << vf_below(r, (unsigned)(4 * a->alen))); }
+				break;
+			case 2: b->channel = a->channel ^ 8; b->alen = a->alen; b->addr = a->addr; break;        /* packet 30 <-> 31, same address */
+			case 3: b->channel = a->channel;                                        /* shorter address: low nibbles of the other */
+				if (a->alen > 1) { b->alen = (int)vf_below(r, (unsigned)a->alen); b->addr = a->addr & ((1u << (4 * b->alen)) - 1); }
+				break;
+			default: b->alen = a->alen; b->addr = a->addr;                         /* other channel, same address */
+			}
+		} while (b->channel == a->channel && b->addr == a->addr && ++tries < 50);
+		if (b->channel == a->channel && b->addr == a->addr) nsvc = 1;
+	}
+
+	/* logical packets, per service in transmission order */
+	for (si = 0; si < nsvc; si++) {
+		struct lsvc *s = ls[si];
+		struct ugen g = { 0, 0, 0 };
+		uint8_t wire[40], b[42], tag[2];
+		int ci0 = (int)vf_below(r, 256), force_next = 0;
+		long seq = 0;
+		s->id = si;
+		s->n_lp = si == 0 ? vf_range(r, 40, vf_chance(r, 1, 3) ? 300 : 120) : vf_range(r, 10, 120);
+		n_lsw[si] = 0;
+		for (k = 0; k < s->n_lp; k++) {
+			struct lpk *l = &s->lp[k];
+			int n, rep, gap = 0;
+			memset(l, 0, sizeof *l);
+			if (k > 0 && (force_next || vf_chance(r, 1, 24))) {
+				gap = vf_chance(r, 2, 3) ? gaps[vf_below(r, sizeof gaps / sizeof gaps[0])] : vf_range(r, 1, 40);
+				if (force_next) n_adj++;
+				force_next = !force_next && vf_chance(r, 1, 3);      /* another loss right after one surviving packet */
+				n_gap++;
+				if (gap == 16) n_gap16++;
+				if (gap % 256 == 0) n_gap256++;
+				gapmask |= gap == 1 ? 1 : gap == 2 ? 2 : gap == 16 ? 4 : gap % 256 == 0 ? 8 : (gap == 15 || gap == 17) ? 16 : (gap == 255 || gap == 257) ? 32 : 64;
+			}
+			seq += gap;
+			s->seq[k] = seq;
+			l->ci = (int)((ci0 + seq) & 255);
+			seq++;
+			s->cbf[k] = (uint8_t)vf_chance(r, 1, 40);
+			tot_cbf += s->cbf[k];
+			l->nrep = s->c.have_ri ? (vf_chance(r, 1, 2) ? 0 : vf_range(r, 1, 3)) : 0;
+			tag_encode(tag, si, k);
+			n = gen_payload_pre(r, &s->c, l, &g, wire, 0, tag, 2);
+			for (rep = 0; rep <= l->nrep; rep++) {
+				struct wire *w = &lsw[si][n_lsw[si]++];
+				if (rep == 0) build_packet(b, &s->c, l->nrep ? 0x80 : 0, l->ci, wire, n, r);
+				else b[4 + s->c.alen] = (uint8_t)(rep | (rep < l->nrep ? 0x80 : 0));
+				memcpy(w->b, b, 42);
+				w->lp = k; w->rep = rep; w->fate = F_OK; w->svc = si;
+			}
+		}
+		wraps += (int)((ci0 + seq) >> 8);
+		/* self-check */
+		for (i = 0; i < n_lsw[si]; i++) {
+			struct parsed q;
+			struct lpk *l = &s->lp[lsw[si][i].lp];
+			ref_parse(lsw[si][i].b, &q, 0);
+			if (q.hamm_err || !q.crc_ok || q.channel != s->c.channel || q.addr != s->c.addr || q.ci != l->ci
+			    || q.n != l->nuser || memcmp(q.data, l->user, (size_t)q.n) || (s->c.have_ri && (q.ri & 15) != lsw[si][i].rep)) {
+				vf_fail("selfcheck:C15:idl-parser-vs-packetiser", "long stream: packet %s parsed ci=%02x n=%d crc_ok=%d; packetiser ci=%02x n=%d",
+					vf_hex(lsw[si][i].b, 42), q.ci, q.n, q.crc_ok, l->ci, l->nuser);
+				return 0;
+			}
+		}
+	}
+
+	/* the multiplex: both services and foreign packets */
+	{
+		int pos[2] = { 0, 0 };
+		n_w = 0;
+		for (;;) {
+			int left0 = n_lsw[0] - pos[0], left1 = nsvc == 2 ? n_lsw[1] - pos[1] : 0;
+			if (left0 + left1 == 0) break;
+			if (nforeign < 600 && vf_chance(r, 1, 4)) {
+				int before = n_w;
+				gen_foreign(r, &ls[vf_below(r, (unsigned)nsvc)]->c);
+				if (n_w > before && (is_service_packet(wv[before].b, &ls[0]->c) || (nsvc == 2 && is_service_packet(wv[before].b, &ls[1]->c))))
+					n_w = before;            /* what is foreign to one service is a packet of the other: not foreign */
+				else
+					nforeign++;
+				continue;
+			}
+			si = (int)vf_below(r, (unsigned)(left0 + left1)) < left0 ? 0 : 1;
+			if (n_w < MAXW) wv[n_w++] = lsw[si][pos[si]];
+			pos[si]++;
+		}
+	}
+
+	/* wire faults: drop of one copy, Hamming (correctable / not), CRC */
+	nf = vf_chance(r, 1, 4) ? 0 : vf_range(r, 1, 10);
+	for (i = 0; i < nf; i++) {
+		int wi, tries = 0, kind;
+		do wi = (int)vf_below(r, (unsigned)n_w); while ((wv[wi].lp < 0 || wv[wi].fate != F_OK) && ++tries < 50);
+		if (wv[wi].lp < 0 || wv[wi].fate != F_OK) break;
+		kind = (int)vf_below(r, 4);
+		if (kind == 0) wv[wi].fate = F_DROP;
+		else apply_fault(r, wi, kind, &ls[wv[wi].svc]->c);
+		kinds |= 1 << kind;
+		if (vf_chance(r, 1, 4) && wi + 1 < n_w) {       /* a second fault close by */
+			int wj = wi + 1;
+			while (wj < n_w && wj < wi + 4 && (wv[wj].lp < 0 || wv[wj].fate != F_OK)) wj++;
+			if (wj < n_w && wv[wj].lp >= 0 && wv[wj].fate == F_OK) { wv[wj].fate = F_DROP; kinds |= 1; }
+		}
+	}
+	for (si = 0; si < nsvc; si++) {
+		struct lsvc *s = ls[si];
+		for (i = 0; i < n_w; i++)
+			if (wv[i].svc == si && (wv[i].fate == F_OK || wv[i].fate == F_BENIGN)) {
+				s->lp[wv[i].lp].any_ok = 1;
+				if (wv[i].rep == 0) s->lp[wv[i].lp].orig_ok = 1;
+			}
+		s->n_reset = vf_chance(r, 1, 2) ? 0 : vf_range(r, 1, 3);
+		for (k = 0; k < s->n_reset; k++) s->reset_at[k] = vf_range(r, 1, n_w - 1);
+		tot_reset += s->n_reset;
+	}
+
+	vf_sample("idl-long %d service(s): ch=%d addr=%x/%d ft=%s%s%s %d packets%s, wire=%d foreign=%d gaps=%ld wraps=%d faults=0x%x resets=%d cbfalse=%d",
+		  nsvc, ls[0]->c.channel, ls[0]->c.addr, ls[0]->c.alen, ls[0]->c.have_ri ? "R" : "-", ls[0]->c.have_ci ? "C" : "-", ls[0]->c.have_dl ? "L" : "-",
+		  ls[0]->n_lp, nsvc == 2 ? " + second service" : "", n_w, nforeign, n_gap, wraps, kinds, tot_reset, tot_cbf);
+	if (vf_verbose) {
+		for (si = 0; si < nsvc; si++)
+			vf_log("service %d: ch=%d addr=%x/%d ri=%d ci=%d dl=%d dep=%d, %d logical packets\n", si, ls[si]->c.channel, ls[si]->c.addr, ls[si]->c.alen,
+			       ls[si]->c.have_ri, ls[si]->c.have_ci, ls[si]->c.have_dl, ls[si]->c.dependent, ls[si]->n_lp);
+		for (i = 0; i < n_w; i++)
+			vf_log("wire %d: svc=%d lp=%d seq=%ld rep=%d fate=%d cbf=%d %s\n", i, wv[i].svc, wv[i].lp, wv[i].svc >= 0 ? ls[wv[i].svc]->seq[wv[i].lp] : -1L,
+			       wv[i].rep, wv[i].fate, wv[i].svc >= 0 ? ls[wv[i].svc]->cbf[wv[i].lp] : 0, vf_hex(wv[i].b, 42));
+	}
+
+	pk = malloc(42);
+	if (!pk) { vf_fail("harness:alloc", "malloc"); return 0; }
+
+	/* 1. packet interface, every context sees every packet */
+	vf_phase("vbi_idl_demux_feed");
+	poison_heap_long();
+	for (si = 0; si < nsvc; si++) {
+		struct lsvc *s = ls[si];
+		s->dx = vbi_idl_a_demux_new((unsigned)s->c.channel, s->c.addr, idl_long_cb, s);
+		if (!s->dx) { vf_fail("harness:alloc", "vbi_idl_a_demux_new failed"); free(pk); return 0; }
+		s->n_dv = 0; s->fr_first = -1;
+	}
+	for (i = 0; i < n_w; i++) {
+		for (si = 0; si < nsvc; si++) do_resets(ls[si], i);
+		if (wv[i].fate == F_DROP) continue;
+		for (si = 0; si < nsvc; si++) {
+			struct lsvc *s = ls[si];
+			vbi_bool ok;
+			int e = expect_ret_long(s, &wv[i]);
+			memcpy(pk, wv[i].b, 42);
+			cur_w = i; s->cbfalse_w = -1;
+			ok = vbi_idl_demux_feed(s->dx, pk);
+			if (s->cbfalse_w >= 0) {
+				if (ok) vf_fail("model:C15:idl:cb-false-not-propagated", "feed returned TRUE although the callback returned FALSE for packet %d", i);
+			} else if (e == 1 && !ok)
+				vf_fail("model:C15:idl:feed-false-on-good-packet", "long stream: context %d: feed returned FALSE for intact packet %d %s", si, i, vf_hex(pk, 42));
+			else if (e == 0 && ok)
+				vf_fail("model:C15:idl:feed-true-on-bad-packet", "long stream: feed returned TRUE for packet %d of the service with %s error %s",
+					i, wv[i].fate == F_CRC ? "a CRC" : "an uncorrectable Hamming", vf_hex(pk, 42));
+		}
+	}
+	for (si = 0; si < nsvc; si++) {
+		evaluate_long("feed", ls[si], &st);
+		vbi_idl_demux_delete(ls[si]->dx);
+	}
+
+	/* 2. frame interface: several packets of the multiplex (and of one service) per call, lines of other
+	 *    data services in between; a frame ends before a reset and after a damaged packet (feed_frame
+	 *    stops at the first line for which feed returns FALSE) */
+	vf_phase("vbi_idl_demux_feed_frame");
+	poison_heap_long();
+	for (si = 0; si < nsvc; si++) {
+		struct lsvc *s = ls[si];
+		s->dx = vbi_idl_a_demux_new((unsigned)s->c.channel, s->c.addr, idl_long_cb, s);
+		if (!s->dx) { vf_fail("harness:alloc", "vbi_idl_a_demux_new failed"); free(pk); return 0; }
+		s->n_dv = 0;
+	}
+	for (i = 0; i < n_w; ) {
+		vbi_sliced sl[24];
+		int map[24], n = 0, want = vf_range(r, 1, 9), nt = 0, nsv[2] = { 0, 0 };
+		memset(sl, 0, sizeof sl);
+		if (vf_chance(r, 1, 2)) { sl[n].id = VBI_SLICED_VPS; sl[n].line = 16; memset(sl[n].data, 0x55, 13); map[n++] = -1; }
+		while (i < n_w && nt < want) {
+			int stop = 0;
+			for (si = 0; si < nsvc; si++) if (reset_between(ls[si], i - 1, i)) stop = 1;
+			if (stop && nt > 0) break;              /* the reset happens between two calls */
+			if (stop) for (si = 0; si < nsvc; si++) do_resets(ls[si], i);
+			if (wv[i].fate == F_DROP) { i++; continue; }
+			if (vf_chance(r, 1, 6)) { sl[n].id = VBI_SLICED_CAPTION_625; sl[n].line = 22; sl[n].data[0] = 0x80; sl[n].data[1] = 0x80; map[n++] = -1; }
+			sl[n].id = (i & 1) ? VBI_SLICED_TELETEXT_B : VBI_SLICED_TELETEXT_B_L25_625;
+			sl[n].line = (uint32_t)(7 + nt);
+			memcpy(sl[n].data, wv[i].b, 42);
+			map[n++] = i; nt++;
+			if (wv[i].svc >= 0) nsv[wv[i].svc]++;
+			i++;
+			if (wv[i - 1].fate != F_OK && wv[i - 1].fate != F_BENIGN) break;
+		}
+		if (vf_chance(r, 1, 3)) { sl[n].id = VBI_SLICED_WSS_625; sl[n].line = 23; map[n++] = -1; }
+		if (nsv[0] > 1 || nsv[1] > 1) multi++;
+		for (si = 0; si < nsvc; si++) feed_frame_long(ls[si], sl, map, n);
+	}
+	for (si = 0; si < nsvc; si++) {
+		evaluate_long("feed_frame", ls[si], &st);
+		vbi_idl_demux_delete(ls[si]->dx);
+	}
+	free(pk);
+
+	vf_count("idl_long_streams", nsvc);
+	vf_count("idl_long_packets_fed", n_w);
+	vf_count("idl_long_logical_packets", ls[0]->n_lp + (nsvc == 2 ? ls[1]->n_lp : 0));
+	vf_count("idl_long_ci_wraps", wraps);
+	vf_count("idl_long_gap_events", n_gap);
+	vf_count("idl_long_gap_16", n_gap16);
+	vf_count("idl_long_gap_multiple_of_256", n_gap256);
+	vf_count("idl_long_loss_after_one_survivor", n_adj);
+	vf_count("idl_long_gap_flagged", st.gap_flagged);
+	vf_count("idl_long_gap_not_observable", st.gap_invisible);
+	vf_count("idl_long_resets", tot_reset);
+	vf_count("idl_long_first_delivery_after_reset", st.first_after_reset);
+	vf_count("idl_long_callback_false", tot_cbf);
+	vf_count("idl_long_deliveries", st.deliveries);
+	vf_count("idl_long_data_lost_flagged", st.lost_flagged);
+	vf_count("idl_long_frames_with_several_service_packets", multi);
+	if (nsvc == 2) vf_count("idl_long_two_contexts", 1);
+	if (kinds & 1) vf_count("idl_long_fault_drop", 1);
+	if (kinds & 2) vf_count("idl_long_fault_hamming_correctable", 1);
+	if (kinds & 4) vf_count("idl_long_fault_crc", 1);
+	if (kinds & 8) vf_count("idl_long_fault_hamming_uncorrectable", 1);
+	vf_sig("idl-long ri=%d ci=%d two=%d gap16=%d gap256=%d wraps=%s faults=%s reset=%d cbf=%d",
+	       ls[0]->c.have_ri, ls[0]->c.have_ci, nsvc == 2, !!(gapmask & 4), !!(gapmask & 8),
+	       wraps == 0 ? "0" : wraps == 1 ? "1" : "2+", kinds == 0 ? "none" : kinds == 1 ? "drop" : "damage", tot_reset > 0, tot_cbf ? 1 : 0);
 	return 1;
 }
 
